@@ -1,6 +1,6 @@
 //! C13: COLRv1 paint traversal - synthetic COLR tables from abstract paint graphs, painted
 //! with a recording ColorPainter; observations for PaintTrace.tla.
-use font_types::{F2Dot14, FWord, GlyphId, GlyphId16, Tag};
+use font_types::{F2Dot14, FWord, Fixed, GlyphId, GlyphId16, Tag};
 use fvcore::{arg_after, guarded, Report};
 use read_fonts::FontRef;
 use serde_json::{json, Value};
@@ -41,7 +41,14 @@ impl Builder<'_> {
         let node = &self.nodes[n - 1];
         match node.kind.as_str() {
             "solid" => Paint::solid(n as u16, F2Dot14::from_f32(1.0)),
-            "transform" => Paint::translate(self.paint(node.kids[0]), FWord::new(n as i16), FWord::new(0)),
+            // the transform kind through several members, singular ones among them (a zero scale factor, a rank-one matrix)
+            "transform" => match n % 5 {
+                0 => Paint::scale(self.paint(node.kids[0]), F2Dot14::from_f32(0.0), F2Dot14::from_f32(1.0)),
+                1 => Paint::translate(self.paint(node.kids[0]), FWord::new(n as i16), FWord::new(0)),
+                2 => Paint::transform(self.paint(node.kids[0]), write_fonts::tables::colr::Affine2x3::new(Fixed::from_f64(1.0), Fixed::from_f64(2.0), Fixed::from_f64(2.0), Fixed::from_f64(4.0), Fixed::from_f64(3.0), Fixed::from_f64(0.0))),
+                3 => Paint::rotate(self.paint(node.kids[0]), F2Dot14::from_f32(0.25)),
+                _ => Paint::scale_uniform(self.paint(node.kids[0]), F2Dot14::from_f32(0.0)),
+            },
             "glyph" => Paint::glyph(self.paint(node.kids[0]), GlyphId16::new(n as u16)),
             "composite" => Paint::composite(self.paint(node.kids[1]), COMPOSITE_MODES[n % COMPOSITE_MODES.len()], self.paint(node.kids[0])),
             "layers" => Paint::colr_layers(node.kids.len() as u8, self.layer_first[n - 1].unwrap()),
